@@ -12,7 +12,7 @@
 (* implicit None, an exception raised by a test escapes (server.py selects the protocol    *)
 (* OUTSIDE its try block).                                                                  *)
 (*                                                                                          *)
-(* A case x is a record [line, tls, hdrs]:                                                  *)
+(* A case x is a record [line, pad, tls, hdrs]:                                                  *)
 (*   line  the first request line exactly as readline() returns it (terminator included),   *)
 (*         decoded with surrogate-escape, as a TLA+ string over ASCII where three           *)
 (*         characters stand for CLASSES of code points (gamma picks representatives):       *)
@@ -22,6 +22,11 @@
 (*                   U+3000 ...): not ASCII, but removed by Python's str.strip();           *)
 (*           FS "^"  ASCII control white space other than TAB CR LF (0x0B 0x0C 0x1C-0x1F):  *)
 (*                   ASCII, removed by str.strip(), never a field separator.                *)
+(*           PAD "@" a run of x.pad filler letters (x.pad from length classes straddling    *)
+(*                   1 KiB, 4 KiB, 5 KiB, 64 KiB and beyond): for every shape it is just     *)
+(*                   part of a selector / path - NO documented shape depends on the length   *)
+(*                   of the line, and the code reads the whole line (ReadLine below).        *)
+(*   pad   length of the PAD run (0 when the line has none)                                  *)
 (*   tls   TRUE iff the connection object is an ssl.SSLSocket (base.py check_tls)           *)
 (*   hdrs  the lines that follow the first line on the stream, as a sequence of KINDS:      *)
 (*           "AW" Accept header listing text/vnd.wap.wml     "AO" Accept header without it  *)
@@ -45,6 +50,7 @@ CONSTANTS WapTop,                 \* [protocols.wap.WAPProtocol] waptop, read fr
 HI == "#"
 NB == "_"
 FS == "^"
+PAD == "@"
 \* Python 3 str.strip() with no argument removes code points with str.isspace(): TAB LF VT FF CR
 \* FS GS RS US SP, U+0085, U+00A0, U+1680, U+2000-200A, U+2028/9, U+202F, U+205F, U+3000.
 WireWS == {" ", "\t", "\n", "\r", FS, NB}
@@ -196,11 +202,15 @@ FirstMatch(list, x) ==
 (* ------------------------------------------------------------------------------------ *)
 \* What every protocol object computes from the request in its constructor / test, computed ONCE per case
 \* (TLC does not memoise): base.py:44 requestlist, http.py:18 requestparts, spartan.py:31 parts, :26 encode.
-Parse(x) == [line |-> x.line, tls |-> x.tls, hdrs |-> x.hdrs,
-             f     |-> Fields(x.line),                  \* self.requestlist
-             sp    |-> SpParts(x.line),                 \* HTTPProtocol.requestparts
-             parts |-> SplitCh(WStrip(x.line), " "),    \* Spartan: request.strip().split(" ")
-             ascii |-> IsAsciiLine(x.line)]
+\* server.py:121  request = self.rfile.readline().decode(errors="surrogateescape"): readline() WITHOUT a size
+\* argument returns the whole first line whatever its length (x.pad), terminator included; nothing is cut,
+\* stripped or re-encoded before protocol selection.
+ReadLine(x) == x.line
+Parse(x) == [line |-> ReadLine(x), tls |-> x.tls, hdrs |-> x.hdrs,
+             f     |-> Fields(ReadLine(x)),                  \* self.requestlist
+             sp    |-> SpParts(ReadLine(x)),                 \* HTTPProtocol.requestparts
+             parts |-> SplitCh(WStrip(ReadLine(x)), " "),    \* Spartan: request.strip().split(" ")
+             ascii |-> IsAsciiLine(ReadLine(x))]
 \* connection state touched by detection: pos = lines of hdrs already read from rfile; cached = the request
 \* handler has pygopherd_http_slurped (http.py:26); hdr = its value
 FreshConn == [pos |-> 0, cached |-> FALSE, hdr |-> NoHdr]
